@@ -1,6 +1,7 @@
 import PV.Lemmas.Tree.BST
 import PV.Lemmas.Tree.AVL
 import PV.Lemmas.Tree.RB
+import PV.Generated.TreeLoops
 /-!
 # C12 — the three tree variants behave as a sorted map, for every operation sequence
 
@@ -53,6 +54,13 @@ theorem spec_sorted [TransCmp cmp] (ops : List (Op κ ν)) (l : List (κ × ν))
 
 /-- the node count is the number of distinct keys -/
 theorem count_is_length (l : List (κ × ν)) : (specStep cmp l .count).2 = .num l.length := rfl
+
+/-- the source facts the translator pins (`tools/extract.py`, refusing any other text): the threaded loops of
+    `p_tree_foreach` / `p_tree_clear` are the ones of `Morris` / `MorrisClear`; insert / remove / lookup / get_nnodes /
+    free / new of ptree.c are the texts `Run` was written from; the variants test only the sign of the comparator -/
+theorem tree_source_as_modelled :
+    Generated.treeLoopsAsModelled = true ∧ Generated.treeCallsAsModelled = true ∧ Generated.treeCompareBySign = true := by
+  decide
 
 /-! non-vacuity: `Nat` with `compare` is such a comparator; a concrete run -/
 example : (avlRun (κ := Nat) (ν := Nat) compare (.nil, 0) [.ins 2 20, .ins 1 10, .ins 3 30, .rem 2, .get 3, .each 1]).isSome := by
